@@ -137,8 +137,8 @@ def check_reassembly(ctx, R, DR, MARKER, size_ok, size_desc, min_packet=8):
     if isinstance(ext_loop, ast.While):
         tt = strip(s.ta.terms_at.get(ext_loop.test, ("top", "?")))
         empty_exit = False
-        if is_const(tt) and tt[1] is True:
-            empty_exit = True
+        if (is_const(tt) and tt[1] is True) or (isinstance(ext_loop.test, ast.Constant) and bool(ext_loop.test.value)):
+            empty_exit = True          # `while True`: the loop never ends normally, only through the classified exits
         elif tt == Bh:
             empty_exit = True
         elif tt[0] == "cmp" and call_is(strip(tt[2]), "len") and strip(strip(tt[2])[2][0]) == Bh:
@@ -170,9 +170,13 @@ def check_reassembly(ctx, R, DR, MARKER, size_ok, size_desc, min_packet=8):
                 return "leading packet incomplete"
             if call_is(l, "len") and strip(l[2][0]) == ("param", data_p) and ((op == "==" and r == ("const", 0)) or (op == "<" and r == ("const", 1))):
                 return "empty segment"
+            if call_is(l, "len") and strip(l[2][0]) == Bh and ((op == "==" and r == ("const", 0)) or (op == "<" and r == ("const", 1)) or (op == "<=" and r == ("const", 0))):
+                return "buffer empty"
             return None
         if a == ("param", data_p) and not truth:
             return "empty segment"
+        if a == Bh and not truth:
+            return "buffer empty"           # the loop condition spelled as an exit inside the body
         return None
 
     def split(st):
